@@ -22,6 +22,12 @@ CHECKS = {
  "C09": dict(engine="tee", design="5/C09", technique="TLA+ Tee spec (cooperative tasks), TLC exhaustive over all interleavings + edge-cover replay into the real tee + TLC trace validation of recorded runs against TeeObs",
    text="spec/Tee.tla models tee_peer action by action; TLC explores every interleaving of 2..4 children with lock/suspending source/early close/cancel and checks the C09 sentences as invariants (plus a negative config outside the premise that must fail); every transition of the state graph is replayed into the real asyncstdlib.tee with hand-driven tasks (state projection compared after each step, then drained), and the recorded observable events of drifted replays, a sample of the others and random schedules beyond the bounds are validated by TLC against spec/TeeObs.tla (order, completeness, fetch-once, no overlap under lock, source closed exactly when the last child is done, weak-reference census).",
    note="Trusted: TLC, the harness (driver, TeeSys adapter, projection), CPython weak-reference/gc behaviour for the census. Exhaustive within the tier's constants; cancellation uses a cancellation-safe class-based source; named deviation UnstartedCloseLeaks models the code as it is (open known finding)."),
+ "C10": dict(engine="lru", design="5/C10", technique="TLA+ Lru spec (key classes transcribed from _make_key), TLC exhaustive over all histories <= MaxOps, edge-cover replay into asyncstdlib and functools.lru_cache, TLC trace validation of long random histories (LruTrace)",
+   text="spec/Lru.tla models the cache as an LRU-ordered sequence of key classes with KeyOf transcribing the key construction (typed, fast path, keyword order, instance prefix for methods); TLC explores every history of calls/failing calls/clear/discard up to MaxOps per configuration (maxsize None/<0/0/1..5/default, typed, function/method/classmethod/staticmethod, bare/cache forms); every transition is replayed into asyncstdlib.lru_cache and functools.lru_cache comparing result identity, invocation log, cache_info and cache_parameters after each step and a drain that exposes the hidden recency order; 40-60 step random histories are recorded and validated by TLC against the same spec.",
+   note="Trusted: TLC, harness, CPython functools.lru_cache as oracle (cache_discard judged by the spec alone). 16 argument patterns; hashable arguments only."),
+ "C11": dict(engine="lruconc", design="5/C11", technique="TLA+ LruConc spec (two critical sections per call), TLC exhaustive over interleavings + edge-cover replay with hand-driven tasks + TLC trace validation against LruObs",
+   text="spec/LruConc.tla splits __call__ at its single await (lookup/count, then re-check/evict/insert) with failing and cancelled calls, cache_clear and cache_discard interleaved; TLC checks SizeBound/NoDup on every interleaving of 2..4 tasks; every transition is replayed into the real cache (cache_info and task states compared per step, then drain and a sequential probe of every key), and recorded events (values with invocation ids, cache_info samples) of drifted replays, a sample of the others and random schedules are validated by TLC against spec/LruObs.tla (value provenance, hits+misses=calls, misses=invocations, currsize<=maxsize, nothing cached by failed/cancelled calls).",
+   note="Trusted: TLC, harness. Statistics are counted since the last cache_clear (the only reading under which the sentence can hold with interleaved clears)."),
 }
 
 def main():
